@@ -62,3 +62,21 @@ package hcl
 //@ ensures none: overlap.Start.Byte == overlap.End.Byte ==> before == overlap && after == overlap
 //@ ensures tile: overlap.Start.Byte != overlap.End.Byte ==> before.Start == r.Start && before.End == overlap.Start && after.Start == overlap.End && after.End == r.End && before.Filename == r.Filename && after.Filename == r.Filename
 //@ ensures order: overlap.Start.Byte != overlap.End.Byte ==> r.Start.Byte <= overlap.Start.Byte && overlap.End.Byte <= r.End.Byte
+
+// ---- interface-level contracts (assumed for every implementation; listed as trusted) ----
+// Body processing never writes memory that existed before the call.
+
+// verif:func (Body).Content
+//@ trusted
+//@ assigns nothing
+//@ ensures ret0 != nil && (ret1 == nil || fresh(ret1))
+// verif:func (Body).PartialContent
+//@ trusted
+//@ assigns nothing
+//@ ensures ret0 != nil && (ret2 == nil || fresh(ret2))
+// verif:func (Body).JustAttributes
+//@ trusted
+//@ assigns nothing
+// verif:func (Body).MissingItemRange
+//@ trusted
+//@ pure
